@@ -245,6 +245,19 @@ class NameSource:
             if rule["selector"] == OPS_SEL + "GetOperation":
                 last = rule
         self.patterns = [name_pattern(b[1]) for b in last["bindings"]] if last else None
+        # programs call future.cancel(): the name must also be one the CancelOperation binding(s) in force accept (the last
+        # CancelOperation rule, else api-core's default `**/operations/*`) — otherwise api-core raises ValueError on the unchanged tree
+        cancel = None
+        for rule in yaml_rules(spec):
+            if rule["selector"] == OPS_SEL + "CancelOperation":
+                cancel = rule
+        self.cancel_patterns = [name_pattern(b[1]) for b in cancel["bindings"]] if cancel else ["**/operations/*"]
+        ctx.assume("REST: the operation names the server hands out are accepted by a binding of the GetOperation rule in force AND by a binding of the "
+                   "CancelOperation rule in force (api-core's default `**/operations/*` when the service config has none)")
+
+    def cancellable(self, name):
+        from google.api_core import path_template
+        return any(p and path_template.validate(p, name) for p in self.cancel_patterns)
 
     def next(self, tag):
         i = next(self.ids)
@@ -253,13 +266,19 @@ class NameSource:
             self.ctx.count("poll_binding", "default-rule")
             return f"{COLLS[self.k % len(COLLS)][1].format(i)}/operations/{tag}{next(self.ids)}"
         n = len(self.patterns)
-        idx = self.k % n
-        self.k += 1
+        for _ in range(n):                      # next binding (round robin) whose instances can also be cancelled
+            idx = self.k % n
+            self.k += 1
+            if self.cancellable(self.instance(idx, 0, "x")):
+                break
         self.ctx.count("poll_binding", ("only" if n == 1 else "primary" if idx == 0 else "last" if idx == n - 1 else "middle") + f" of {n}")
-        segs = []
-        for seg in self.patterns[idx].split("/"):
-            segs.append(f"shelves/s{i}" if seg == "**" else (f"x{i}" if seg == "*" else seg))
-        segs[-1] = f"{tag}{next(self.ids)}" if self.patterns[idx].split("/")[-1] in ("*", "**") else segs[-1]
+        return self.instance(idx, i, f"{tag}{next(self.ids)}")
+
+    def instance(self, idx, i, leaf):
+        pat = self.patterns[idx].split("/")
+        segs = [f"shelves/s{i}" if seg == "**" else (f"x{i}" if seg == "*" else seg) for seg in pat]
+        if pat[-1] in ("*", "**"):
+            segs[-1] = leaf if pat[-1] == "*" else f"shelves/{leaf}"
         return "/".join(segs)
 
 
